@@ -33,6 +33,12 @@ def programs(env, tier):
         for l in lead:
             for t in trail:
                 out.append((2, [(l[0], 0), (l[1], 1), (e, 0), (t[0], 0), (t[1], 1)]))
+    # ancilla between the rails of a qubit (the measurement circuits are then added across it)
+    anc = ("ANC", env.R2)
+    out.append((1, [(anc, 0)]))
+    out.append((1, [(a1[0], 0), (anc, 0), (a1[4], 0)]))
+    out.append((2, [(a1[0], 0), (anc, 1), (("CNOT",), 0), (a1[10], 1)]))
+    out.append((2, [(anc, 0), (a1[9], 1), (("CZ_Heralded",), 0), (anc, 1)]))
     # three qubits: GHZ-type and a CCZ state with complex phases
     out.append((3, [(a1[0], 0), (("CNOT_Heralded",), 0), (("CNOT",), 1), (a1[4], 2)]))
     out.append((3, [(a1[0], 0), (a1[0], 1), (a1[0], 2), (("CCZ",), 0), (a1[6], 0), (a1[9], 1), (a1[7], 2)]))
